@@ -349,4 +349,400 @@ theorem pyFloat_plain (l : List Char) (v : Nat × Int) (h : pyFloat l = some v) 
       | some e => exact pyInt_plain b e hpi
     simp [hnum, hc, hb]
 
+/-! ### reassembling the pieces of `partition_scope` and `partition` -/
+
+theorem five_pieces (l : List Char) (i j : Nat) (hij : i + 1 ≤ j) :
+    l = l.take i ++ ((l.drop i).take 1 ++ ((l.drop (i + 1)).take (j - (i + 1)) ++ ((l.drop j).take 1 ++ l.drop (j + 1)))) := by
+  have e1 : l.drop j = (l.drop j).take 1 ++ l.drop (j + 1) := by
+    rw [← List.drop_drop]; exact (List.take_append_drop 1 _).symm
+  have e2 : l.drop (i + 1) = (l.drop (i + 1)).take (j - (i + 1)) ++ l.drop j := by
+    have : l.drop j = (l.drop (i + 1)).drop (j - (i + 1)) := by rw [List.drop_drop]; congr 1; omega
+    rw [this]; exact (List.take_append_drop _ _).symm
+  have e3 : l.drop i = (l.drop i).take 1 ++ l.drop (i + 1) := by
+    rw [← List.drop_drop]; exact (List.take_append_drop 1 _).symm
+  conv => lhs; rw [← List.take_append_drop i l, e3, e2, e1]
+
+theorem find_opening_char (l : List Char) (h : (find [.opening] l).offset < l.length) :
+    ∃ o rest, l.drop (find [.opening] l).offset = o :: rest ∧ isOpen o = true := by
+  unfold find at h ⊢
+  split
+  · rename_i im off n hg
+    obtain ⟨k, hk, m, hm1, hm2⟩ := findGo_match [.opening] l 0 0 im off n hg
+    have hn := findGo_nonzero _ _ _ _ _ _ _ hg
+    simp only [List.mem_singleton] at hm1
+    subst hm1
+    simp only [Nat.zero_add] at hk; subst hk
+    simp only [Matcher.run] at hm2
+    cases hd : l.drop off with
+    | nil => rw [hd] at hm2; simp at hm2; exact absurd hm2 hn
+    | cons o rest =>
+      rw [hd] at hm2
+      refine ⟨o, rest, rfl, ?_⟩
+      cases ho : isOpen o with
+      | true => rfl
+      | false => simp only [ho] at hm2; simp at hm2; exact absurd hm2 hn
+  · rename_i hg
+    rw [hg] at h
+    simp at h
+
+theorem find_closing_after_open (o : Char) (rest : List Char) (ho : isOpen o = true) :
+    1 ≤ (find [.closing] (o :: rest)).offset := by
+  have hoc : isClose o = false := by
+    cases h : isClose o with
+    | false => rfl
+    | true => rw [open_close_excl o h] at ho; simp at ho
+  unfold find
+  split
+  · rename_i im off n hg
+    rw [findGo_cons] at hg
+    have : (if lvlClose o 0 = 0 then firstMatch [.closing] (o :: rest) 0 else none) = none := by
+      simp [lvlClose, hoc, firstMatch, Matcher.run]
+    rw [this] at hg
+    simp only [] at hg
+    have := findGo_bound _ _ _ _ _ hg
+    simp at this ⊢; omega
+  · simp
+
+/-- the pieces of `partition_scope` put together again -/
+theorem partitionScope_pieces (s : Sub) :
+    (s.partitionScope.sOpen.chars = [] ∧ s.partitionScope.head.chars = s.chars) ∨
+    (∃ o, isOpen o = true ∧ s.partitionScope.sOpen.chars = [o] ∧
+      s.chars = s.partitionScope.head.chars ++ (o :: (s.partitionScope.scope.chars ++ (s.partitionScope.sClose.chars ++ s.partitionScope.tail.chars)))) := by
+  by_cases h : s.openAt < s.chars.length
+  · right
+    obtain ⟨o, rest, hd, ho⟩ := find_opening_char s.chars h
+    have hj : s.openAt + 1 ≤ s.closeAt := by
+      have := find_closing_after_open o rest ho
+      simp only [Sub.closeAt, Sub.openAt] at this ⊢
+      rw [hd]; omega
+    have hp := five_pieces s.chars s.openAt s.closeAt hj
+    have h1 : (s.chars.drop s.openAt).take 1 = [o] := by
+      simp only [Sub.openAt]; rw [hd]; rfl
+    refine ⟨o, ho, ?_, ?_⟩
+    · simp only [Sub.partitionScope, Sub.slice]
+      rw [show s.openAt + 1 - s.openAt = 1 by omega]; exact h1
+    · simp only [Sub.partitionScope, Sub.slice, Sub.takeN, Sub.dropN]
+      rw [show s.closeAt + 1 - s.closeAt = 1 by omega]
+      rw [h1] at hp
+      simpa using hp
+  · left
+    have hge : s.chars.length ≤ s.openAt := by omega
+    constructor
+    · simp only [Sub.partitionScope, Sub.slice]
+      rw [List.drop_eq_nil_of_le hge]; simp
+    · simp only [Sub.partitionScope, Sub.takeN]
+      exact List.take_of_length_le hge
+
+theorem partition_pieces (s : Sub) (ms : List Matcher) (hms : ∀ m ∈ ms, m.plainMatch = true) :
+    ∃ mid, mid.all plain = true ∧ s.chars = (s.partition ms).1.chars ++ (mid ++ (s.partition ms).2.2.chars) := by
+  refine ⟨(s.chars.drop (find ms s.chars).offset).take (find ms s.chars).length, find_matched_plain ms hms s.chars, ?_⟩
+  simp only [Sub.partition, Sub.takeN, Sub.dropN]
+  rw [← List.drop_drop, List.take_append_drop, List.take_append_drop]
+
+/-! ### the parser functions -/
+
+/-- names of the context contain no brackets -/
+def Ctx.plainNames (Γ : Ctx) : Prop := (∀ p ∈ Γ.vars, p.1.all plain = true) ∧ (∀ p ∈ Γ.fns, p.1.all plain = true)
+
+theorem lookup_plain (l : List (Name × List Nat)) (hl : ∀ p ∈ l, p.1.all plain = true) (n : Name) (sh : List Nat)
+    (h : (l.find? (·.1 == n)).map (·.2) = some sh) : n.all plain = true := by
+  cases hf : l.find? (·.1 == n) with
+  | none => simp [hf] at h
+  | some p =>
+    have hm := List.mem_of_find?_eq_some hf
+    have he := List.find?_some hf
+    simp only [beq_iff_eq] at he
+    rw [← he]; exact hl p hm
+
+theorem idxChar_plain (c : Char) (h : idxChar c = true) : plain c = true := by
+  simp only [idxChar, Bool.or_eq_true] at h
+  rcases h with h | h
+  · exact isDigit_plain c h
+  · simp only [Bool.and_eq_true, decide_eq_true_eq] at h
+    have h1 : 97 ≤ c.toNat := h.1
+    have h2 : c.toNat ≤ 122 := h.2
+    have hne : ∀ d : Char, (d.toNat < 97 ∨ 122 < d.toNat) → (c == d) = false := by
+      intro d hd
+      cases hcd : c == d with
+      | false => rfl
+      | true => have := eq_of_beq hcd; subst this; omega
+    simp only [plain, isOpen, isClose, Bool.not_eq_true', Bool.or_eq_false_iff]
+    have e3 := hne '(' (by decide); have e4 := hne ')' (by decide)
+    have e5 := hne '[' (by decide); have e6 := hne ']' (by decide); have e7 := hne '{' (by decide); have e8 := hne '}' (by decide)
+    have e9 := hne '<' (by decide); have e10 := hne '>' (by decide)
+    simp [e3, e4, e5, e6, e7, e8, e9, e10]
+
+theorem genIndicesGo_plain (cs : List Char) : ∀ (ops : Ops) (shape : List Nat) (indices : List Char) (st : Nat) (r : Ops × List Nat × List Char),
+    genIndicesGo ops shape indices ⟨st, cs⟩ = .ok r → cs.all plain = true := by
+  induction cs with
+  | nil => intros; rfl
+  | cons c cs ih =>
+    intro ops shape indices st r h
+    simp only [genIndicesGo] at h
+    split at h
+    · rename_i hc
+      split at h
+      · simp [fail] at h
+      · simp only [List.all_cons, isDigit_plain c hc, Bool.true_and]; exact ih _ _ _ _ _ h
+    · split at h
+      · rename_i hnd hc
+        have : idxChar c = true := by simp [idxChar, hc]
+        simp only [List.all_cons, idxChar_plain c this, Bool.true_and]; exact ih _ _ _ _ _ h
+      · simp [fail] at h
+
+theorem parseUnsignedInt_bal (t : Sub) (r : Res) (h : parseUnsignedInt t = .ok r) : Bal t.chars := by
+  apply Bal.of_trim
+  unfold parseUnsignedInt at h
+  cases hp : pyInt t.trim.chars with
+  | none => simp [hp, fail] at h
+  | some v => exact Bal.of_plain _ (pyInt_plain _ v hp)
+
+theorem parseUnsignedFloat_bal (t : Sub) (r : Res) (h : parseUnsignedFloat t = .ok r) : Bal t.chars := by
+  apply Bal.of_trim
+  unfold parseUnsignedFloat at h
+  cases hp : pyFloat t.trim.chars with
+  | none => simp [hp, fail] at h
+  | some v => exact Bal.of_plain _ (pyFloat_plain _ v hp)
+
+theorem parseSignedInt_bal (t : Sub) (r : Res) (h : parseSignedInt t = .ok r) : Bal t.chars := by
+  apply Bal.of_trim
+  unfold parseSignedInt at h
+  cases hp : pyInt t.trim.chars with
+  | none => simp [hp, fail] at h
+  | some v => exact Bal.of_plain _ (pyInt_plain _ v hp)
+
+theorem closerOf_isClose (o : List Char) (c : List Char) (h : closerOf o = c) : ∃ d, c = [d] ∧ isClose d = true := by
+  unfold closerOf at h
+  split at h
+  · exact ⟨')', h.symm, by decide⟩
+  · split at h
+    · exact ⟨']', h.symm, by decide⟩
+    · split at h
+      · exact ⟨'}', h.symm, by decide⟩
+      · exact ⟨'>', h.symm, by decide⟩
+
+theorem itemBody_bal (Γ : Ctx) (hΓ : Γ.plainNames) (rec : Rec) (hrec : ∀ t r, rec t = .ok r → Bal t.chars)
+    (s : Sub) (a : Bool) (r : Res) (h : itemBody Γ rec s a = .ok r) : Bal s.chars := by
+  apply Bal.of_trim
+  unfold itemBody at h
+  simp only [] at h
+  split at h
+  · simp at h
+  · split at h
+    · split at h
+      · simp [fail] at h
+      · split at h
+        · rename_i r' hr; exact parseUnsignedInt_bal _ _ hr
+        · split at h
+          · rename_i r' hr; exact parseUnsignedFloat_bal _ _ hr
+          · simp at h
+    · split at h
+      · simp [fail2] at h
+      · rename_i hunclosed
+        split at h
+        · simp [fail2] at h
+        · rename_i hcloser
+          split at h
+          · simp [fail] at h
+          · rename_i htail
+            have htl : s.trim.partitionScope.tail.chars = [] := by
+              simpa [Sub.isEmpty] using htail
+            rcases partitionScope_pieces s.trim with ⟨hso, hhead⟩ | ⟨o, ho, hso, hpieces⟩
+            · -- no scope: a variable
+              have hemp : s.trim.partitionScope.sOpen.isEmpty = true := by simp [Sub.isEmpty, hso]
+              split at h
+              · obtain ⟨b, hb, h⟩ := bind_ok h
+                obtain ⟨g, hg, _⟩ := bind_ok h
+                try simp only [hemp, if_true] at hb
+                obtain ⟨mid, hmid, hparts⟩ := partition_pieces s.trim.partitionScope.head [.lit ['_']] (by
+                  intro m hm; simp only [List.mem_singleton] at hm; subst hm; decide)
+                rw [← hhead, hparts]
+                have hname : (s.trim.partitionScope.head.partition [.lit ['_']]).1.chars.all plain = true := by
+                  split at hb
+                  · simp [fail] at hb
+                  · rename_i shape hl
+                    exact lookup_plain Γ.vars hΓ.1 _ shape hl
+                have hgen := genIndicesGo_plain _ _ _ _ _ _ hg
+                exact (Bal.of_plain _ hname).append ((Bal.of_plain _ hmid).append (Bal.of_plain _ hgen))
+              · rw [hso] at h
+                have e1 : (([] : List Char) == ['(']) = false := rfl
+                have e2 : (([] : List Char) == ['[']) = false := rfl
+                have e3 : (([] : List Char) == ['{']) = false := rfl
+                simp only [e1, e2, e3, Bool.false_eq_true, if_false] at h
+                cases h
+            · -- a scope
+              have hne : s.trim.partitionScope.sOpen.isEmpty = false := by simp [Sub.isEmpty, hso]
+              have hcl : closerOf s.trim.partitionScope.sOpen.chars = s.trim.partitionScope.sClose.chars := by
+                simpa [hne] using hcloser
+              obtain ⟨d, hd, hdc⟩ := closerOf_isClose _ _ hcl
+              rw [hpieces, hd, htl]
+              -- the scope itself is balanced because `rec` accepted it
+              have hscope : Bal s.trim.partitionScope.scope.chars := by
+                split at h
+                · obtain ⟨b, hb, _⟩ := bind_ok h
+                  try simp only [hne, Bool.false_eq_true, if_false] at hb
+                  split at hb
+                  · obtain ⟨arg, harg, _⟩ := bind_ok hb
+                    exact hrec _ _ harg
+                  · simp at hb
+                · split at h
+                  · obtain ⟨r', hr', _⟩ := bind_ok h; exact hrec _ _ hr'
+                  · split at h
+                    · obtain ⟨r', hr', _⟩ := bind_ok h; exact hrec _ _ hr'
+                    · split at h
+                      · obtain ⟨r', hr', _⟩ := bind_ok h; exact hrec _ _ hr'
+                      · simp at h
+              have hhead : Bal s.trim.partitionScope.head.chars := by
+                split at h
+                · obtain ⟨b, hb, h⟩ := bind_ok h
+                  obtain ⟨g, hg, _⟩ := bind_ok h
+                  try simp only [hne, Bool.false_eq_true, if_false] at hb
+                  obtain ⟨mid, hmid, hparts⟩ := partition_pieces s.trim.partitionScope.head [.lit ['_']] (by
+                    intro m hm; simp only [List.mem_singleton] at hm; subst hm; decide)
+                  rw [hparts]
+                  have hname : (s.trim.partitionScope.head.partition [.lit ['_']]).1.chars.all plain = true := by
+                    split at hb
+                    · obtain ⟨arg, _, hb⟩ := bind_ok hb
+                      split at hb
+                      · simp [fail] at hb
+                      · rename_i gen hl
+                        exact lookup_plain Γ.fns hΓ.2 _ gen hl
+                    · simp at hb
+                  have hgen := genIndicesGo_plain _ _ _ _ _ _ hg
+                  exact (Bal.of_plain _ hname).append ((Bal.of_plain _ hmid).append (Bal.of_plain _ hgen))
+                · rename_i hh
+                  have : s.trim.partitionScope.head.chars = [] := by simpa [Sub.isEmpty] using hh
+                  rw [this]; exact Bal.nil
+              have := Bal.bracket ho hdc hscope
+              simpa using hhead.append this
+
+theorem mem_two {α : Type} {a b x : α} (h : x ∈ [a, b]) : x = a ∨ x = b := by
+  simp only [List.mem_cons, List.not_mem_nil, or_false] at h; exact h
+
+theorem powerBody_bal (Γ : Ctx) (hΓ : Γ.plainNames) (rec : Rec) (hrec : ∀ t r, rec t = .ok r → Bal t.chars)
+    (s : Sub) (a : Bool) (r : Res) (h : powerBody Γ rec s a = .ok r) : Bal s.chars := by
+  apply Bal.of_trim
+  unfold powerBody at h
+  simp only [] at h
+  have hsplit := splitL_bal [.lit ['^']] (by intro m hm; simp only [List.mem_singleton] at hm; subst hm; decide) s.trim.start s.trim.chars
+  simp only [Sub.split] at h
+  generalize splitL [.lit ['^']] s.trim.start s.trim.chars = parts at h hsplit
+  split at h
+  · rename_i b
+    apply hsplit
+    intro p hp; simp only [List.mem_singleton] at hp; subst hp
+    exact itemBody_bal Γ hΓ rec hrec _ a r h
+  · rename_i b e
+    split at h
+    · simp [fail] at h
+    · split at h
+      · simp [fail] at h
+      · obtain ⟨base, hbase, h⟩ := bind_ok h
+        obtain ⟨ex, hex, _⟩ := bind_ok h
+        apply hsplit
+        intro p hp
+        rcases mem_two hp with rfl | rfl
+        · exact itemBody_bal Γ hΓ rec hrec _ a base hbase
+        · -- the exponent: a scope `( ... )` or a signed int
+          split at hex
+          · rename_i hcond
+            simp only [Bool.and_eq_true, beq_iff_eq, Sub.isEmpty, List.isEmpty_iff] at hcond
+            obtain ⟨⟨⟨hh, ht⟩, ho⟩, hc⟩ := hcond
+            rcases partitionScope_pieces p with ⟨hso, _⟩ | ⟨o, hoo, hso, hpieces⟩
+            · rw [hso] at ho; simp at ho
+            · rw [hpieces, hh, ht, hc]
+              have := Bal.bracket hoo (by decide : isClose ')' = true) (hrec _ _ hex)
+              simpa using this
+          · split at hex
+            · split at hex
+              · exact parseSignedInt_bal _ _ hex
+              · simp [fail] at hex
+            · simp [fail] at hex
+  · simp [fail] at h
+
+theorem mapMIdx_all_ok {α β : Type} (f : Nat → α → P β) (l : List α) : ∀ (k : Nat) (out : List β),
+    mapMIdx f l k = .ok out → ∀ a ∈ l, ∃ i b, f i a = .ok b := by
+  induction l with
+  | nil => intro k out _ a ha; simp at ha
+  | cons x xs ih =>
+    intro k out h a ha
+    simp only [mapMIdx] at h
+    obtain ⟨y, hy, h⟩ := bind_ok h
+    obtain ⟨ys, hys, _⟩ := bind_ok h
+    rcases List.mem_cons.mp ha with rfl | ha
+    · exact ⟨k, y, hy⟩
+    · exact ih _ _ hys a ha
+
+theorem termBody_bal (Γ : Ctx) (hΓ : Γ.plainNames) (rec : Rec) (hrec : ∀ t r, rec t = .ok r → Bal t.chars)
+    (s : Sub) (r : Res) (h : termBody Γ rec s = .ok r) : Bal s.chars := by
+  unfold termBody at h
+  simp only [] at h
+  split at h
+  · exact powerBody_bal Γ hΓ rec hrec s true r h
+  · apply Bal.of_trim
+    obtain ⟨parts, hparts, _⟩ := bind_ok h
+    apply splitL_bal [.spaces] (by intro m hm; simp only [List.mem_singleton] at hm; subst hm; rfl) s.trim.start
+    intro p hp
+    obtain ⟨i, b, hb⟩ := mapMIdx_all_ok _ _ _ _ hparts p hp
+    exact powerBody_bal Γ hΓ rec hrec p _ b hb
+
+theorem fractionBody_bal (Γ : Ctx) (hΓ : Γ.plainNames) (rec : Rec) (hrec : ∀ t r, rec t = .ok r → Bal t.chars)
+    (s : Sub) (r : Res) (h : fractionBody Γ rec s = .ok r) : Bal s.chars := by
+  unfold fractionBody at h
+  have hsplit := splitL_bal slash (by intro m hm; simp only [slash, List.mem_singleton] at hm; subst hm; decide) s.start s.chars
+  simp only [Sub.split] at h
+  generalize splitL slash s.start s.chars = parts at h hsplit
+  split at h
+  · rename_i n
+    apply hsplit
+    intro p hp; simp only [List.mem_singleton] at hp; subst hp
+    exact termBody_bal Γ hΓ rec hrec _ r h
+  · rename_i n d
+    obtain ⟨num, hnum, h⟩ := bind_ok h
+    obtain ⟨den, hden, _⟩ := bind_ok h
+    apply hsplit
+    intro p hp
+    rcases mem_two hp with rfl | rfl
+    · exact termBody_bal Γ hΓ rec hrec _ num hnum
+    · exact termBody_bal Γ hΓ rec hrec _ den hden
+  · simp [fail] at h
+
+theorem exprBody_bal (Γ : Ctx) (hΓ : Γ.plainNames) (rec : Rec) (hrec : ∀ t r, rec t = .ok r → Bal t.chars)
+    (s : Sub) (r : Res) (h : exprBody Γ rec s = .ok r) : Bal s.chars := by
+  unfold exprBody at h
+  simp only [] at h
+  obtain ⟨un, hun, _⟩ := bind_ok h
+  have htail : Bal ((stripMinus s).getD s).chars := by
+    apply isplitL_bal plusMinus (by
+      intro m hm; simp only [plusMinus, List.mem_cons, List.not_mem_nil, or_false] at hm
+      rcases hm with rfl | rfl <;> decide) _ ((stripMinus s).getD s).start
+    intro p hp
+    obtain ⟨i, b, hb⟩ := mapMIdx_all_ok _ _ _ _ hun p hp
+    obtain ⟨r', hr', _⟩ := bind_ok hb
+    exact fractionBody_bal Γ hΓ rec hrec _ r' hr'
+  unfold stripMinus at htail
+  split at htail
+  · rename_i hcond
+    simp only [Option.getD_some, Sub.dropN] at htail
+    simp only [Bool.and_eq_true, Sub.startsWith] at hcond
+    apply Bal.of_trimStart
+    cases hc : s.trimStart.chars with
+    | nil => rw [hc] at hcond; simp [List.isPrefixOf] at hcond
+    | cons c cs =>
+      rw [hc] at hcond htail
+      simp only [List.isPrefixOf, Bool.and_true, beq_iff_eq] at hcond
+      have : c = '-' := hcond.1.symm
+      subst this
+      simp only [List.drop_succ_cons, List.drop_zero] at htail
+      exact Bal.plain_cons (by decide) htail
+  · simpa using htail
+
+/-- **every accepted string has balanced brackets** -/
+theorem parseExprB_bal (Γ : Ctx) (hΓ : Γ.plainNames) (base : Rec) (hbase : ∀ t r, base t = .ok r → Bal t.chars) :
+    ∀ (n : Nat) (s : Sub) (r : Res), parseExprB Γ base n s = .ok r → Bal s.chars := by
+  intro n
+  induction n with
+  | zero => intro s r h; exact hbase s r h
+  | succ n ih => intro s r h; exact exprBody_bal Γ hΓ _ (fun t r' h' => ih t r' h') s r h
+
 end NutilsVerif.C19
